@@ -74,7 +74,10 @@ def cases(draw) -> t.Any:
         v = gen.mutate(draw, v, [])
     if draw(st.booleans()):
         v = gen.reshape_all(draw, v)
-    return [list(members), v]
+    # further values for the *same* union type object, each built from some member: the answer for a value must not
+    # depend on what the union converted before
+    more = [draw(tg.node(draw(st.sampled_from(members))).valid()) for _ in range(draw(st.integers(0, 3)))]
+    return [list(members), v, more]
 
 
 def spellings(members: t.Sequence[t.Any]) -> t.Dict[str, t.Any]:
@@ -93,7 +96,7 @@ def spellings(members: t.Sequence[t.Any]) -> t.Dict[str, t.Any]:
 
 
 def render(case: t.Any) -> t.Any:
-    (members, v) = case
+    (members, v) = case[:2]
     return {'union': tg.node(('union', 'Union', tuple(members))).render(), 'value': short(v, 200)}
 
 
@@ -101,10 +104,15 @@ def check(case: t.Any, ctx: Ctx) -> None:
     import pane
     from pane.convert import make_converter
     from pane.errors import ParseInterrupt
-    (members, v) = case
+    (members, v) = case[:2]
     mnodes = [tg.node(m) for m in members]
     U = tg.node(('union', 'Union', tuple(members)))
     UT = U.pytype()
+    more = case[2] if len(case) > 2 else []
+    if more:
+        # warm the union's converter with the other values first, then again afterwards (see end of check)
+        for w in more:
+            outcome(lambda: pane.from_data(w, UT))
     ident = f"U = {U.render()[:300]}; v = {short(v, 150)}"
 
     per = [outcome(lambda m=m: pane.from_data(v, m.pytype())) for m in mnodes]
@@ -138,6 +146,19 @@ def check(case: t.Any, ctx: Ctx) -> None:
         (r, idx) = U.ref_index(v)
         if isinstance(r, tg.Acc) and idx is not None and idx != i and not any(isinstance(m.ref(v), tg.Unspec) for m in mnodes[:max(i, idx) + 1]):
             ctx.fail('leftmost-wins', 'reference-index', f"{ident}; pane's left-most accepting member is {i}, the reference says {idx}")
+            return
+
+    # (1b) the other values, through the same (now used) union type object
+    for w in more:
+        perw = [outcome(lambda m=m: pane.from_data(w, m.pytype())) for m in mnodes]
+        if any(kk == 'exc' for (kk, _) in perw):
+            continue
+        acc_w = [j for (j, (kk, _)) in enumerate(perw) if kk == 'ok']
+        (kw, gw) = outcome(lambda: pane.from_data(w, UT))
+        ctx.evaluated()
+        if kw == 'exc' or (kw == 'ok') != bool(acc_w) or (acc_w and same(gw, perw[acc_w[0]][1]) is not None):
+            ctx.fail('leftmost-wins', 'after-other-values', f"U = {U.render()[:300]}; after converting {short(v, 60)} and {[short(x, 40) for x in more]} through the same union type, "
+                     f"{short(w, 80)} gives {kw} {short(gw, 80)}; its left-most accepting member ({acc_w[:1]}) gives {short(perw[acc_w[0]][1], 80) if acc_w else 'a rejection'}")
             return
 
     # (2) spellings
